@@ -115,7 +115,41 @@ func pointsTo(t types.Type, typ *types.TypeName) bool {
 		return false
 	}
 	n, ok := p.Elem().(*types.Named)
-	return ok && n.Obj() == typ
+	if !ok {
+		return false
+	}
+	if n.Obj() == typ {
+		return true
+	}
+	// a part of typ: an unexported struct embedded in it by value (its fields are fields of typ
+	// that were grouped)
+	return embeddedIn(n, typ, 0)
+}
+
+// embeddedIn: the named struct type n is embedded by value in the struct typ (directly or through
+// another embedded struct of the same package).
+func embeddedIn(n *types.Named, typ *types.TypeName, depth int) bool {
+	st, ok := typ.Type().Underlying().(*types.Struct)
+	if !ok || depth > 2 {
+		return false
+	}
+	for i := 0; i < st.NumFields(); i++ {
+		f := st.Field(i)
+		if !f.Embedded() {
+			continue
+		}
+		en, ok := f.Type().(*types.Named)
+		if !ok || en.Obj().Pkg() != typ.Pkg() || en.Obj().Exported() {
+			continue
+		}
+		if en == n || en.Obj() == n.Obj() {
+			return true
+		}
+		if embeddedIn(n, en.Obj(), depth+1) {
+			return true
+		}
+	}
+	return false
 }
 
 // lenOfField: v == len(<load of typ.name>)
